@@ -322,6 +322,33 @@ stream_step(struct stream *stream)
 
 	stream->cur_ev = (struct ovni_ev *) &stream->buf[stream->offset];
 
+	/* Ensure the header (and the jumbo size) can be read before
+	 * computing the event size from them */
+	int64_t left = stream->size - stream->offset;
+	if (left < (int64_t) sizeof(struct ovni_ev_header)) {
+		err("stream '%s' ends with incomplete event header",
+				stream->relpath);
+		return -1;
+	}
+
+	if (stream->cur_ev->header.flags & OVNI_EV_JUMBO) {
+		int64_t jhdr = (int64_t) sizeof(struct ovni_ev_header)
+			+ (int64_t) sizeof(uint32_t);
+		if (left < jhdr) {
+			err("stream '%s' ends with incomplete jumbo event",
+					stream->relpath);
+			return -1;
+		}
+
+		/* Refuse the sizes for which ovni_ev_size() overflows */
+		if (stream->cur_ev->payload.jumbo.size
+				> (uint32_t) INT32_MAX - (uint32_t) jhdr) {
+			err("stream '%s' has a jumbo event too large",
+					stream->relpath);
+			return -1;
+		}
+	}
+
 	/* Ensure the event fits */
 	if (stream->offset + ovni_ev_size(stream->cur_ev) > stream->size) {
 		err("stream '%s' ends with incomplete event",
